@@ -1,18 +1,27 @@
 """C19 - label utilities: globally unique labels; relabelling by track."""
-from contracts import arrays
+from contracts import arrays, tracklabel
 
-LEVEL = "other"
-TRUSTED = ["numpy array model (pyvc/arraymodel.py): a[i] is a view, masked in-place update, np.max of a non-empty frame, astype/reshape keep cell values"]
-EXPLANATION = ("PROVED (SMT, unbounded, every number of frames and pixels): ensure_unique_labels - loop invariant 'running maximum dominates every label "
-               "written so far; labels strictly increase across frames; zero pattern and partition of each frame unchanged; unprocessed frames untouched' "
-               "is initial, preserved by the real loop body and implies 'no label in two frames, regions and background unchanged'. "
-               "BOUNDED STAND-IN: relabel_segmentation_with_track_id on every forest with <= 4 (5) nodes, with a detection outside the solution.")
-ASSUMPTIONS = ["labels are non-negative integers (uint64 conversion), mathematical integers (no overflow)", "frames are non-empty arrays"]
-NOT_UNDER_CONTRACT = ["relabel_segmentation_with_track_id (bounded stand-in)"]
+LEVEL = "proof"
+TRUSTED = ["numpy array model (pyvc/arraymodel.py): a[i] is a view, masked in-place update, np.max of a non-empty frame, astype/reshape/zeros_like keep shape and cell values",
+           "networkx models (contracts/tracklabel.py): out_degree() lists every node once with its out-degree; copy() has the same nodes and edges; "
+           "remove_edges_from(out_edges(n)) removes exactly n's out-edges; weakly_connected_components(G) yields each class of the partition of G's nodes "
+           "by weak connectivity in G's edges exactly once - 'unbranched track segment' is by definition such a class of the solution minus the out-edges of dividing nodes"]
+EXPLANATION = ("PROVED (SMT, unbounded - every number of frames, pixels, nodes and every graph): "
+               "(1) ensure_unique_labels - loop invariant 'running maximum dominates every label written so far; labels strictly increase across frames; zero pattern "
+               "and partition of each frame unchanged; unprocessed frames untouched' is initial, preserved by the real loop body and implies 'no label in two frames, "
+               "regions and background unchanged' (both multiseg settings). "
+               "(2) relabel_segmentation_with_track_id - F1 the graph whose components are taken is exactly the solution minus the out-edges of dividing nodes "
+               "(filter comprehension over out_degree(), loop invariant of the edge-removal loop); F2 every pixel of a node's (time, seg id) carries 1 + the index "
+               "of the node's segment, so labels are positive, equal within a segment and different across segments; F3 every other pixel is background (detections "
+               "outside the solution are removed); F4 input array and solution graph are not written (nested loop invariants over the components and their nodes). "
+               "BOUNDED cross-check: relabel_segmentation_with_track_id on every forest with <= 4 (5) nodes, with a detection outside the solution.")
+ASSUMPTIONS = ["labels are non-negative integers (uint64 conversion), mathematical integers (no overflow)", "frames are non-empty arrays",
+               "node times are frame indices and a (time, seg id) pair names at most one node (the documented input of relabelling by track)"]
+NOT_UNDER_CONTRACT = []
 
 
 def units(tier):
-    return arrays.units()
+    return arrays.units() + tracklabel.units()
 
 
 def bounded(tier, seed):
